@@ -33,8 +33,15 @@ Froze(c) == [enc |-> {EncFlag(x) : x \in c} \ {""}, dec |-> {DecFlag(x) : x \in 
 
 \* ---- probes and effects ----
 EncProbes == {"plain_struct", "str_html", "map3", "mjws", "mtn", "nil_slice", "nil_map", "nan", "str_badutf8", "mjbad", "stream"}
+\* the same encoder probes as the value of a field on the second level of a recursive type, and four structs deep: the option word
+\* has to survive the recursive call of a codec program and the calls of nested programs
+RecProbes == {"rec:plain_struct", "rec:str_html", "rec:map3", "rec:mjws", "rec:mtn", "rec:nil_slice", "rec:nil_map", "rec:nan", "rec:str_badutf8", "rec:mjbad",
+              "deep:nan", "deep:nil_slice", "deep:str_html", "deep:map3"}
+Base(p) == CASE p = "rec:plain_struct" -> "plain_struct" [] p \in {"rec:str_html", "deep:str_html"} -> "str_html" [] p \in {"rec:map3", "deep:map3"} -> "map3"
+             [] p = "rec:mjws" -> "mjws" [] p = "rec:mtn" -> "mtn" [] p \in {"rec:nil_slice", "deep:nil_slice"} -> "nil_slice" [] p = "rec:nil_map" -> "nil_map"
+             [] p \in {"rec:nan", "deep:nan"} -> "nan" [] p = "rec:str_badutf8" -> "str_badutf8" [] p = "rec:mjbad" -> "mjbad" [] OTHER -> p
 DecProbes == {"doc_plain", "doc_num_iface", "doc_surrogate", "doc_unknown_field", "doc_case_key", "doc_ctl", "doc_badutf8"}
-Probes == EncProbes \cup DecProbes
+Probes == EncProbes \cup RecProbes \cup DecProbes
 
 Sensitive(x) == CASE x = "EscapeHTML" -> {"str_html"}
                   [] x = "SortMapKeys" -> {"map3"}
@@ -53,7 +60,8 @@ Sensitive(x) == CASE x = "EscapeHTML" -> {"str_html"}
                   [] OTHER -> {}          \* CopyString, NoValidateJSONSkip: no result changes on valid data
 
 \* another switch that is on makes x unobservable on this probe
-Masked(x, others, p) ==
+Masked(x, others, p0) ==
+  LET p == Base(p0) IN
   \/ x = "NoValidateJSONMarshaler" /\ "CompactMarshaler" \in others /\ p = "mjbad"     \* compaction parses the text anyway
   \/ x = "CompactMarshaler" /\ p = "mjbad" /\ "NoValidateJSONMarshaler" \notin others  \* already an error either way
 
@@ -61,7 +69,7 @@ Masked(x, others, p) ==
 Law(x, others, p) ==
   IF x = "DisallowUnknownFields" /\ p = "doc_case_key" THEN (IF "CaseSensitive" \in others THEN "DisallowUnknownFields" ELSE "same")   \* unmatched keys are unknown fields
   ELSE IF x = "CaseSensitive" /\ p = "doc_case_key" /\ "DisallowUnknownFields" \in others THEN "DisallowUnknownFields"                \* ... and then an error
-  ELSE IF p \in Sensitive(x) /\ ~Masked(x, others, p) THEN x ELSE "same"
+  ELSE IF Base(p) \in Sensitive(x) /\ ~Masked(x, others, p) THEN x ELSE "same"
 
 \* UseInt64 and UseNumber together are rejected by the decoder (it panics with a message saying so): not a configuration
 ValidCfg(c) == ~({"UseInt64", "UseNumber"} \subseteq c)
